@@ -98,7 +98,14 @@ func (_this *Context) SwapBuilder(builder Builder) Builder {
 
 func (_this *Context) ArtificiallyTerminate() {
 	for len(_this.builderStack) > 1 {
+		depth := len(_this.builderStack)
 		_this.CurrentBuilder.BuildArtificiallyEndContainer(_this)
+		if len(_this.builderStack) >= depth {
+			// Not every builder can close itself (edge, node, ignore, pointer,
+			// scalar builders do nothing here). Drop it so that termination
+			// always makes progress instead of spinning forever.
+			_this.UnstackBuilder()
+		}
 	}
 }
 
